@@ -126,6 +126,14 @@ UpdateLast(s, k) ==
   /\ UNCHANGED alias
   /\ last' = [op |-> "UpdateLast", s |-> s, k |-> k]
 
+\* a rejected observation (RATIO without a total -> ValueError; CHOICE with an index that is not an integer or is
+\* out of range -> AssertionError / IndexError): nothing may change
+RejectedUpdate(s, kind) ==
+  /\ Type \in {"RATIO", "CHOICE"} /\ sets[s] # <<>>
+  /\ (kind = "noTotal") <=> (Type = "RATIO")
+  /\ UNCHANGED <<sets, alias, sobs>>
+  /\ last' = [op |-> "RejectedUpdate", s |-> s, kind |-> kind]
+
 \* a MISC result that never saw an observation has no "last observation": merging it IN is outside the law
 MiscGuard(t) == Type = "MISC" => sobs[t][Len(sobs[t])] # <<>>
 
@@ -163,6 +171,7 @@ AppendAll(s, t) ==
 
 Next ==
   \/ \E s \in S, k \in 1..Len(ObsAlpha) : AddNew(s, k) \/ UpdateLast(s, k)
+  \/ \E s \in S, kd \in {"noTotal", "badIndex"} : RejectedUpdate(s, kd)
   \/ AddEmpty(1)          \* (by symmetry of the sets one place for the empty result suffices)
   \/ \E s \in S, t \in S : MergeRes(s, t) \/ MergeAll(s, t) \/ AppendAll(s, t)
 
